@@ -125,7 +125,19 @@ func transcriptionInSync() bool {
 	a = strings.ReplaceAll(a, "ErasureCodingLargeBlockSize", "largeBlockSize")
 	a = strings.ReplaceAll(a, "ErasureCodingSmallBlockSize", "smallBlockSize")
 	b := funcBody(string(mine), "VerifWriteDatFileSized")
-	return a == b && !strings.HasPrefix(a, "?")
+	if a != b || strings.HasPrefix(a, "?") {
+		return false
+	}
+	// rebuildEcFiles against its transcription with the buffer size as a parameter
+	realEnc, err3 := ioutil.ReadFile(filepath.Join(dir, "ec_encoder.go"))
+	mine2, err4 := ioutil.ReadFile(filepath.Join(dir, "rebuild_verif.go"))
+	if err3 != nil || err4 != nil {
+		return false
+	}
+	c := funcBody(string(realEnc), "rebuildEcFiles")
+	c = strings.ReplaceAll(c, "ErasureCodingSmallBlockSize", "bufferSize")
+	d := funcBody(string(mine2), "VerifRebuildEcFilesSized")
+	return c == d && !strings.HasPrefix(c, "?")
 }
 
 // the real WriteEcFiles + WriteDatFile (production constants) on a small volume,
@@ -293,6 +305,163 @@ type builder struct {
 	wdSync   bool
 	caseSeq  int
 	thorough bool
+	// extra observations attached to the next case runCase emits
+	pendingBig   []string
+	pendingCanon []string
+}
+
+// ---- closed-form content for the production-size run, mirrored by mix_byte in coq/model/EC.v ----
+func mixByte(seed, p uint64) byte {
+	x := ((p+seed)*1103515245 + 12345) % 2147483648
+	y := (x*x/256 + x + p/4096) % 2147483648
+	return byte((y / 4096) % 256)
+}
+
+// bigRebuild: the REAL WriteEcFiles and RebuildEcFiles (production block sizes, 256 KiB
+// encode buffer, 1 MiB rebuild buffer) on a .dat of 10..40 MiB, so that the shard files
+// are 2..4 MiB and rebuildEcFiles makes several passes.  The shard files are sampled.
+func (b *builder) bigRebuild(r *hx.Rng, lost []int) {
+	b.caseSeq++
+	cdir := filepath.Join(b.dir, fmt.Sprintf("big%d", b.caseSeq))
+	hx.Must(os.MkdirAll(cdir, 0o755))
+	defer os.RemoveAll(cdir)
+	base := filepath.Join(cdir, "1")
+	const MiB = 1 << 20
+	seed := r.Next() % 2147483648
+	var D int
+	switch r.Intn(4) {
+	case 0:
+		D = r.Range(2, 4) * 10 * MiB // exactly on a small row
+	case 1:
+		D = r.Range(1, 3)*10*MiB + r.Range(1, 9) // just behind a small row
+	default:
+		D = 10*MiB + 1 + r.Intn(30*MiB)
+	}
+	dat := make([]byte, D)
+	for i := range dat {
+		dat[i] = mixByte(seed, uint64(i))
+	}
+	hx.Must(ioutil.WriteFile(base+".dat", dat, 0o644))
+	dat = nil
+	genErr := ec.WriteEcFiles(base)
+	os.Remove(base + ".dat")
+	orig := make([][]byte, ec.TotalShardsCount)
+	lens := make([]int64, ec.TotalShardsCount)
+	for i := range orig {
+		var err error
+		orig[i], err = ioutil.ReadFile(base + ec.ToExt(i))
+		hx.Must(err)
+		lens[i] = int64(len(orig[i]))
+	}
+	slen := len(orig[0])
+	// sampled offsets: around every multiple of the rebuild buffer, the two ends, random ones
+	offSet := map[int]bool{}
+	var offs []int
+	add := func(o int) {
+		if o >= 0 && o < slen && !offSet[o] {
+			offSet[o] = true
+			offs = append(offs, o)
+		}
+	}
+	add(0)
+	add(1)
+	add(slen - 1)
+	for k := 1; k*int(rebuildBuf) <= slen; k++ {
+		for _, d := range []int{-2, -1, 0, 1, 2, 256*1024 - 1, 256 * 1024, 777777} {
+			add(k*int(rebuildBuf) + d)
+		}
+	}
+	for len(offs) < 90 && slen > 0 {
+		add(r.Intn(slen))
+	}
+	sample := func(f []byte) string {
+		bs := make([]byte, 0, len(offs))
+		for _, o := range offs {
+			if o < len(f) {
+				bs = append(bs, f[o])
+			}
+		}
+		return byteList(bs)
+	}
+	present := make([]bool, ec.TotalShardsCount)
+	for i := range present {
+		present[i] = true
+	}
+	for _, i := range lost {
+		present[i] = false
+		os.Remove(base + ec.ToExt(i))
+	}
+	gen, err := ec.RebuildEcFiles(base)
+	var genZ []int64
+	for _, g := range gen {
+		genZ = append(genZ, int64(g))
+	}
+	rlens := make([]int64, ec.TotalShardsCount)
+	var rebuilt []string
+	var firstDiff []int64
+	for i := 0; i < ec.TotalShardsCount; i++ {
+		got, rerr := ioutil.ReadFile(base + ec.ToExt(i))
+		if rerr != nil {
+			rlens[i] = -1
+			continue
+		}
+		rlens[i] = int64(len(got))
+		if !present[i] {
+			rebuilt = append(rebuilt, hx.Pair(hx.Z(int64(i)), sample(got)))
+			fd := int64(-1)
+			if len(got) != len(orig[i]) {
+				fd = int64(min(len(got), len(orig[i])))
+			}
+			for t := 0; t < len(got) && t < len(orig[i]); t++ {
+				if got[t] != orig[i][t] {
+					fd = int64(t)
+					break
+				}
+			}
+			firstDiff = append(firstDiff, fd)
+			if fd >= 0 && len(lost) <= 4 {
+				b.out.Count("big-rebuild-WRONG", 1)
+			}
+		}
+	}
+	origS := make([]string, len(orig))
+	for i := range orig {
+		origS[i] = sample(orig[i])
+	}
+	pb := make([]string, len(present))
+	for i, v := range present {
+		pb[i] = hx.Bool(v)
+	}
+	offZ := make([]int64, len(offs))
+	for i, o := range offs {
+		offZ[i] = int64(o)
+	}
+	term := fmt.Sprintf("{| bg_large := %s; bg_small := %s; bg_rbuf := %s; bg_seed := %s; bg_dsize := %s; bg_gen_ok := %s; bg_lens := %s; bg_offsets := %s; bg_orig := %s; bg_present := %s; bg_ok := %s; bg_generated := %s; bg_rlens := %s; bg_rebuilt := %s; bg_first_diff := %s |}",
+		hx.Z(ec.ErasureCodingLargeBlockSize), hx.Z(ec.ErasureCodingSmallBlockSize), hx.Z(rebuildBuf), hx.Z(int64(seed)), hx.Z(int64(D)), hx.Bool(genErr == nil),
+		hx.ZList(lens), hx.ZList(offZ), hx.List(origS), hx.List(pb), hx.Bool(err == nil), hx.ZList(genZ), hx.ZList(rlens), hx.List(rebuilt), hx.ZList(firstDiff))
+	b.pendingBig = append(b.pendingBig, term)
+	b.pendingCanon = append(b.pendingCanon, fmt.Sprintf("big D%d seed%d lost%v", D, seed, lost))
+	b.out.Count(fmt.Sprintf("big-rebuild-passes:%d", slen/int(rebuildBuf)), 1)
+	b.out.Count(fmt.Sprintf("big-rebuild-lost:%d", len(lost)), 1)
+}
+
+// rebuild buffer sizes for the transcription of rebuildEcFiles: several passes over a
+// shard of slen bytes (B | slen), exactly one pass + the empty read (B = slen), one short
+// pass (B > slen), and sizes that do not divide slen (the "ec shard size expected" error
+// once a later pass reads fewer bytes); 0 = the real generateMissingEcFiles (1 MiB buffer)
+func pickRebuildBuf(r *hx.Rng, p params, slen int) int {
+	cands := []int{0, int(p.S), 2 * int(p.S), slen, slen + 3, 7, 16, 1}
+	if slen >= 4 && slen%2 == 0 {
+		cands = append(cands, slen/2)
+	}
+	if slen > 3 {
+		cands = append(cands, slen-1, (slen+1)/2)
+	}
+	c := cands[r.Intn(len(cands))]
+	if c < 0 {
+		c = 0
+	}
+	return c
 }
 
 func (b *builder) runCase(r *hx.Rng, p params, D int, kind string, nReads int, subsets [][]int, decode bool) {
@@ -337,6 +506,10 @@ func (b *builder) runCase(r *hx.Rng, p params, D int, kind string, nReads int, s
 	dataShards := make([]string, ec.DataShardsCount)
 	for i := 0; i < ec.DataShardsCount; i++ {
 		dataShards[i] = byteList(shards[i])
+	}
+	parityShards := make([]string, ec.ParityShardsCount)
+	for i := 0; i < ec.ParityShardsCount; i++ {
+		parityShards[i] = byteList(shards[ec.DataShardsCount+i])
 	}
 
 	// ---- reads ----
@@ -411,14 +584,39 @@ func (b *builder) runCase(r *hx.Rng, p params, D int, kind string, nReads int, s
 				hx.Must(ioutil.WriteFile(rbase+ec.ToExt(i), shards[i], 0o644))
 			}
 		}
-		gen, err := ec.VerifGenerateMissingEcFiles(rbase, p.buf, p.L, p.S)
+		// the first subset of a case runs the real function, the others mostly the transcription
+		rbuf := 0
+		if si > 0 || r.Chance(1, 2) {
+			rbuf = pickRebuildBuf(r, p, int(shardSize))
+		}
+		var gen []uint32
+		var err error
+		if rbuf == 0 {
+			gen, err = ec.VerifGenerateMissingEcFiles(rbase, p.buf, p.L, p.S)
+		} else {
+			gen, err = ec.VerifGenerateMissingEcFilesSized(rbase, rbuf)
+		}
+		usedBuf := int64(rbuf)
+		if rbuf == 0 {
+			usedBuf = rebuildBuf
+		}
+		passes := "1"
+		switch {
+		case int64(shardSize) > usedBuf && int64(shardSize)%usedBuf == 0:
+			passes = "many"
+		case int64(shardSize) > usedBuf:
+			passes = "many-uneven(error)"
+		case int64(shardSize) == usedBuf:
+			passes = "1+empty"
+		}
+		b.out.Count("rebuild-passes:"+passes, 1)
 		var genZ []int64
 		for _, g := range gen {
 			genZ = append(genZ, int64(g))
 		}
 		rlens := make([]int64, ec.TotalShardsCount)
 		var rdata []string
-		paritySame := true
+		bufOK := int64(shardSize)%usedBuf == 0 || int64(shardSize) < usedBuf
 		for i := 0; i < ec.TotalShardsCount; i++ {
 			got, rerr := ioutil.ReadFile(rbase + ec.ToExt(i))
 			if rerr != nil {
@@ -427,12 +625,8 @@ func (b *builder) runCase(r *hx.Rng, p params, D int, kind string, nReads int, s
 			}
 			rlens[i] = int64(len(got))
 			if !present[i] {
-				if i < ec.DataShardsCount {
-					rdata = append(rdata, hx.Pair(hx.Z(int64(i)), byteList(got)))
-				} else if !bytes.Equal(got, shards[i]) {
-					paritySame = false
-				}
-				if !bytes.Equal(got, shards[i]) && len(lost) <= 4 {
+				rdata = append(rdata, hx.Pair(hx.Z(int64(i)), byteList(got)))
+				if !bytes.Equal(got, shards[i]) && len(lost) <= 4 && bufOK {
 					b.out.Count("rebuild-WRONG", 1)
 				}
 			}
@@ -441,16 +635,19 @@ func (b *builder) runCase(r *hx.Rng, p params, D int, kind string, nReads int, s
 		for i, v := range present {
 			pb[i] = hx.Bool(v)
 		}
-		rebuilds = append(rebuilds, fmt.Sprintf("{| rb_present := %s; rb_ok := %s; rb_generated := %s; rb_lens := %s; rb_data := %s; rb_parity_same := %s |}",
-			hx.List(pb), hx.Bool(err == nil), hx.ZList(genZ), hx.ZList(rlens), hx.List(rdata), hx.Bool(paritySame)))
-		canon = append(canon, fmt.Sprintf("l%v", lost))
+		rebuilds = append(rebuilds, fmt.Sprintf("{| rb_present := %s; rb_ok := %s; rb_generated := %s; rb_lens := %s; rb_data := %s; rb_buf := %s |}",
+			hx.List(pb), hx.Bool(err == nil), hx.ZList(genZ), hx.ZList(rlens), hx.List(rdata), hx.Z(usedBuf)))
+		canon = append(canon, fmt.Sprintf("l%vb%d", lost, rbuf))
 		b.out.Count(fmt.Sprintf("rebuild-lost:%d", len(lost)), 1)
 		os.RemoveAll(rdir)
 	}
 
-	term := fmt.Sprintf("{| c_large := %s; c_small := %s; c_buf := %s; c_rbuf := %s; c_seed := %s; c_dsize := %s; c_gen_ok := %s; c_shard_lens := %s; c_data_shards := %s; c_colwise := %s; c_wd_sync := %s; c_decode_run := %s; c_decoded := %s; c_reads := %s; c_rebuilds := %s |}",
+	term := fmt.Sprintf("{| c_large := %s; c_small := %s; c_buf := %s; c_rbuf := %s; c_seed := %s; c_dsize := %s; c_gen_ok := %s; c_shard_lens := %s; c_data_shards := %s; c_parity_shards := %s; c_colwise := %s; c_wd_sync := %s; c_decode_run := %s; c_decoded := %s; c_reads := %s; c_rebuilds := %s; c_big := %s |}",
 		hx.Z(p.L), hx.Z(p.S), hx.Z(int64(p.buf)), hx.Z(rebuildBuf), hx.Z(int64(seed)), hx.Z(int64(D)), hx.Bool(genErr == nil),
-		hx.ZList(lens), hx.List(dataShards), hx.Bool(colwise), hx.Bool(b.wdSync), hx.Bool(decode), decoded, hx.List(reads), hx.List(rebuilds))
+		hx.ZList(lens), hx.List(dataShards), hx.List(parityShards), hx.Bool(colwise), hx.Bool(b.wdSync), hx.Bool(decode), decoded, hx.List(reads), hx.List(rebuilds), hx.List(b.pendingBig))
+	extraNontrivial := len(b.pendingBig) > 0
+	canon = append(canon, b.pendingCanon...)
+	b.pendingBig, b.pendingCanon = nil, nil
 	lrow := int(p.L) * 10
 	rel := "mid"
 	switch m := D % lrow; {
@@ -469,7 +666,7 @@ func (b *builder) runCase(r *hx.Rng, p params, D int, kind string, nReads int, s
 		return (D - 1) / lrow
 	}()), 1)
 	b.out.Count(fmt.Sprintf("L=%d,S=%d,buf=%d", p.L, p.S, p.buf), 1)
-	b.out.Add(term, fmt.Sprintf("L%d S%d b%d D%d seed%d %s", p.L, p.S, p.buf, D, seed, strings.Join(canon, ",")), D > 0 && (len(reads) > 0 || len(rebuilds) > 0), kind)
+	b.out.Add(term, fmt.Sprintf("L%d S%d b%d D%d seed%d %s", p.L, p.S, p.buf, D, seed, strings.Join(canon, ",")), (D > 0 && (len(reads) > 0 || len(rebuilds) > 0)) || extraNontrivial, kind)
 }
 
 func min(a, b int) int {
@@ -481,7 +678,7 @@ func min(a, b int) int {
 
 func main() {
 	out := hx.Flags("C06", 120)
-	out.Rule = "dat = LCG(seed) bytes; block sizes (large,small,buffer) in {(40,10,10),(100,10,10)} plus a few (20,10,5),(60,20,10); datSize: every size within 2 small rows (+-3 bytes) of 0..3 large rows (thorough: swept systematically, quick: sampled, boundaries first); per layout case ~22 reads (offset,size; read through the production intervals AND the true-size intervals): first/last byte, empty, straddling every row/block boundary, block-aligned grid x sizes {1,S-1,S,S+1,L-1,L,L+1,..}, one long read across the large/small switch, the whole file when small; decode of every layout case; rebuild cases: subsets of <=4 lost shards (thorough: all 1471 swept, quick: all singles + sampled), a few 5-subsets (error path); first cases are the fixed pre-repair witnesses (995-byte dat L=100: LocateData(100,10,1000,0,8); datSize = k*10*large). non-trivial = non-empty dat with at least one read or rebuild; distinct = (params, datSize, seed, reads, lost sets)"
+	out.Rule = "dat = LCG(seed) bytes; block sizes (large,small,buffer) in {(40,10,10),(100,10,10)} plus a few (20,10,5),(60,20,10); datSize: every size within 2 small rows (+-3 bytes) of 0..3 large rows (thorough: swept systematically, quick: sampled, boundaries first); per layout case ~22 reads (offset,size; read through the production intervals AND the true-size intervals): first/last byte, empty, straddling every row/block boundary, block-aligned grid x sizes {1,S-1,S,S+1,L-1,L,L+1,..}, one long read across the large/small switch, the whole file when small; decode of every layout case; rebuild cases: subsets of <=4 lost shards (thorough: all 1471 swept, quick: all singles + sampled), a few 5-subsets (error path), each rebuild either the real generateMissingEcFiles (1 MiB buffer: one short pass) or its transcription with a buffer from {S,2S,len,len/2,len+3,len-1,7,16,1} (several passes, the empty final read, the uneven-size error); big-rebuild cases: the real WriteEcFiles+RebuildEcFiles with production constants on a 10..40 MiB .dat = mix_byte(seed) (2..4 passes), shard files sampled at ~90 offsets around every MiB boundary; first cases are the fixed pre-repair witnesses (995-byte dat L=100: LocateData(100,10,1000,0,8); datSize = k*10*large). non-trivial = non-empty dat with at least one read or rebuild; distinct = (params, datSize, seed, reads, lost sets)"
 	root := hx.NewRng(out.Seed)
 	dir, err := ioutil.TempDir("", "c06")
 	hx.Must(err)
@@ -520,6 +717,21 @@ func main() {
 		}
 		if shardNo == 0 && i == len(fixed) {
 			b.runCase(r, params{40, 10, 10}, 437, "rebuild", 0, append(singles, []int{}), false)
+			continue
+		}
+		// production-size rebuilds (several passes of the 1 MiB rebuild buffer): two per check
+		// run in shard 0 (one lost data shard + one lost parity shard; four lost), sometimes
+		// one more in the other shards; thorough: one in every shard of cases
+		if (shardNo == 0 && (i == len(fixed)+1 || i == len(fixed)+2)) || (shardNo != 0 && i == 0 && (b.thorough || r.Chance(1, 4))) {
+			lost := []int{r.Intn(10), 10 + r.Intn(4)}
+			if i == len(fixed)+2 {
+				lost = b.allSub[r.Intn(len(b.allSub))]
+				for len(lost) < 4 {
+					lost = b.allSub[r.Intn(len(b.allSub))]
+				}
+			}
+			b.bigRebuild(r, lost)
+			b.runCase(r, params{40, 10, 10}, 0, "big-rebuild", 0, nil, false)
 			continue
 		}
 		// choose the size
